@@ -1,7 +1,10 @@
 //go:build verif
 
-// Contracts for the generated bindings of this package (property C05), derived mechanically by
-// /verif/tools/gencontracts.py from the generated source; checked by /verif/govc. Comments only.
+// Contracts for the generated bindings of this package, derived mechanically by /verif/tools/gencontracts.py;
+// checked by /verif/govc. Comments only. C05 (decoder totality): from the shape of the generated readers.
+// C03 (schema encoding): from the IDL file of the package - for a struct whose members are all scalars or
+// strings, WriteTo appends exactly the members in ascending tag order, each under its declared tag and wire
+// type, required ones always, optional ones unless equal to their declared default.
 
 package notifyf
 
@@ -29,3 +32,22 @@ package notifyf
 //@   ensures [C05] readBuf.buf.i >= p0
 //@   ensures [C05] validR(readBuf)
 //@   safety [C05]
+//
+//@ func (*ReportInfo).WriteTo
+//@   requires st != nil && validB(buf) && len(st.SApp) < 4294967296 && len(st.SSet) < 4294967296 && len(st.SContainer) < 4294967296 && len(st.SServer) < 4294967296 && len(st.SMessage) < 4294967296 && len(st.SThreadId) < 4294967296 && len(st.SNodeName) < 4294967296
+//@   let e0 = buf.buf.bytes
+//@   let e1 = e0 ++ encInt32(1, st.EType)
+//@   let e2 = e1 ++ encString(2, st.SApp)
+//@   let e3 = e2 ++ encString(3, st.SSet)
+//@   let e4 = e3 ++ encString(4, st.SContainer)
+//@   let e5 = e4 ++ encString(5, st.SServer)
+//@   let e6 = e5 ++ encString(6, st.SMessage)
+//@   let e7 = (st.SThreadId != "" ? e6 ++ encString(7, st.SThreadId) : e6)
+//@   let e8 = e7 ++ encInt32(8, st.ELevel)
+//@   let e9 = (st.SNodeName != "" ? e8 ++ encString(9, st.SNodeName) : e8)
+//@   let pre = e9
+//@   opaque head encInt8 encInt16 encInt32 encInt64 encString encBool
+//@   perreturn
+//@   modifies buf.buf.bytes
+//@   ensures [C03] err == nil && buf.buf.bytes == pre
+//@   safety [C03]
